@@ -19,6 +19,15 @@ import (
 
 const verifDir = "/verif"
 
+// outDir: where evidence and replay files go. Always /verif for the registered checks; redirected only
+// when the machinery itself is being tested against a seeded change in a scratch worktree.
+func outDir() string {
+	if d := os.Getenv("PANASIM_OUTPUT_DIR"); d != "" {
+		return d
+	}
+	return verifDir
+}
+
 func envSeed() uint64 {
 	if s := os.Getenv("VERIF_SEED"); s != "" {
 		if v, err := strconv.ParseUint(s, 10, 64); err == nil {
@@ -295,7 +304,7 @@ func checkChain(prop, tier string) int {
 		if r.Err != "" {
 			fmt.Printf("MACHINERY-TROUBLE: run seed=%d: %s (script: %s)\n", r.Seed, r.Err, r.ScriptPath)
 			if r.ScriptPath != "" {
-				keep := filepath.Join(verifDir, "replays", filepath.Base(r.ScriptPath))
+				keep := filepath.Join(outDir(), "replays", filepath.Base(r.ScriptPath))
 				_ = os.MkdirAll(filepath.Dir(keep), 0o755)
 				bz, _ := os.ReadFile(r.ScriptPath)
 				_ = os.WriteFile(keep, bz, 0o644)
@@ -504,8 +513,8 @@ func minimiseAndConfirm(r *RunResult, env *Env, scratch string) (string, int) {
 		}
 	}
 	final.TraceHash = e.Trace.Sum()
-	_ = os.MkdirAll(filepath.Join(verifDir, "replays"), 0o755)
-	path := filepath.Join(verifDir, "replays", fmt.Sprintf("%s-%d-%s.json", target.Property, s.Seed, sanitize(target.Class)))
+	_ = os.MkdirAll(filepath.Join(outDir(), "replays"), 0o755)
+	path := filepath.Join(outDir(), "replays", fmt.Sprintf("%s-%d-%s.json", target.Property, s.Seed, sanitize(target.Class)))
 	out, _ := json.MarshalIndent(&final, "", " ")
 	if err := os.WriteFile(path, out, 0o644); err != nil {
 		return path, 2
@@ -583,6 +592,14 @@ func replayMain(args []string) int {
 		return 0
 	}
 	v := e.Viol[0]
+	if want != nil {
+		for _, x := range e.Viol {
+			if x.Property == want.Property && x.Class == want.Class {
+				v = x
+				break
+			}
+		}
+	}
 	fmt.Printf("violation: property=%s class=%s at_step=%d: %s\n", v.Property, v.Class, v.AtStep, v.Detail)
 	if want != nil {
 		if want.Property == v.Property && want.Class == v.Class && (wantTrace == "" || wantTrace == e.Trace.Sum()) {
